@@ -134,6 +134,8 @@ def run(ctx):
            "a second look at the history); an accumulation that happens inside the first recorded item changes the series it is the sum of")
     _reuse(ctx, _c11.run, ("C11.restore",), "C08res", "restore rule shared with C11: every recorded increment belongs to the recorded population before it; a restore that trims or rewrites the "
            "restored history shifts that pairing for every later step", only=lambda f: f.key.endswith("history|mutated"))
+    _reuse(ctx, _c11.run, ("C11.keys",), "C08res", "payload rule shared with C11: an extra that replaces the payload's 'meta' entry loses the checkpointed temperature, so the first increment after "
+           "a resume is computed for a move from beta = 0", only=lambda f: "collision|" in f.key)
     _reuse(ctx, _c11.run, ("C11.cut",), "C08cut", "cut-point rule shared with C11: a checkpoint taken before the iteration's ratio is recorded makes a resumed run drop that step from the evidence")
     S = repo.cls("aspire.samples:SMCSamples")
     N = T.app("len", self_attr("x"))
